@@ -5,9 +5,12 @@ Definition Ainv (s : sys) : Prop := forall T, asyncm s T -> ainv s T.
 
 Lemma asyncm_fields : forall s s' T,
   cn (getc s' T) FHasm = cn (getc s T) FHasm -> cn (getc s' T) FTriedA = cn (getc s T) FTriedA ->
-  cn (getc s' T) FTried1 = cn (getc s T) FTried1 -> cn (getc s' T) FFb = cn (getc s T) FFb ->
+  incl (s_dlv s) (s_dlv s') -> cn (getc s' T) FFb = cn (getc s T) FFb ->
   cn (getc s' T) FStFb = cn (getc s T) FStFb -> asyncm s' T -> asyncm s T.
-Proof. intros s s' T A B C D E. unfold asyncm, hasm, F. rewrite A, B, C, D, E. auto. Qed.
+Proof.
+  intros s s' T A B C D E [H1 [H2 [H3 [H4 H5]]]]. apply (no1pc_incl _ _ _ C) in H3.
+  unfold asyncm, hasm, F in *. rewrite A, B, D, E in *. auto.
+Qed.
 
 Theorem ainv_stepr : forall s e s', Inv s -> Linv s -> Zinv s -> Yinv s -> Ainv s -> stepr s e = Ok s' -> Ainv s'.
 Proof.
@@ -15,10 +18,10 @@ Proof.
   destruct (option_map (N.eqb T0) (txn_of e)) as [[|] |] eqn:Et.
   2: { assert (Hne : txn_of e <> Some T0) by (intros E'; rewrite E' in Et; cbn in Et; rewrite N.eqb_refl in Et; discriminate).
        pose proof (stepr_getc_other _ _ _ T0 H Hne) as Gc. eapply ainv_other; eauto. apply HA.
-       unfold asyncm, hasm, F in *. rewrite Gc in Am'. auto. }
+       destruct Am' as [B1 [B2 [B3 [B4 B5]]]]. apply (no1pc_back _ _ _ _ H) in B3. unfold asyncm, hasm, F in *. rewrite Gc in *. auto. }
   2: { assert (Hne : txn_of e <> Some T0) by (intros E'; rewrite E' in Et; discriminate).
        pose proof (stepr_getc_other _ _ _ T0 H Hne) as Gc. eapply ainv_other; eauto. apply HA.
-       unfold asyncm, hasm, F in *. rewrite Gc in Am'. auto. }
+       destruct Am' as [B1 [B2 [B3 [B4 B5]]]]. apply (no1pc_back _ _ _ _ H) in B3. unfold asyncm, hasm, F in *. rewrite Gc in *. auto. }
   destruct (txn_of e) as [T1 |] eqn:Et'; cbn [option_map] in Et; [| discriminate Et].
   assert (T1 = T0) as -> by (injection Et as Et1; apply N.eqb_eq in Et1; auto). clear Et.
   destruct (quiet e) eqn:Q.
@@ -32,12 +35,12 @@ Proof.
   - eapply ainv_pw_reply; eauto.
   - assert (Am : asyncm s T0).
     { pose proof H as H2. cbn [stepr] in H2. unfold step_rb_send in H2. chks H2. okinv H2.
-      eapply asyncm_fields; [| | | | | exact Am']; rd; reflexivity. }
+      eapply asyncm_fields; [| | | | | exact Am']; rd; try reflexivity; apply incl_refl. }
     eapply ainv_rb_send; eauto.
   - eapply ainv_cts_deliver; eauto.
   - assert (Am : asyncm s T0).
     { pose proof H as H2. cbn [stepr] in H2. unfold step_told in H2. chks H2. destruct x; chks H2; okinv H2;
-        (eapply asyncm_fields; [| | | | | exact Am']; rd; reflexivity). }
+        (eapply asyncm_fields; [| | | | | exact Am']; rd; try reflexivity; apply incl_refl). }
     eapply ainv_told; eauto.
 Qed.
 
